@@ -291,7 +291,6 @@ Definition deviation_witnesses : list (string * list value) := [
   ("~{~{~A~:}|~}", [VList [ints [1]; ints [2]]]);                     (* nested ~:} *)
   ("~:(~A~)", [VStr (tx "2nd")]);                                     (* words that start with a digit *)
   ("~@(~A~)", [VStr (tx " hello world")]);
-  ("~[a~;b~:;c~]", [VInt 100000000000000000000]);                     (* bignum selector *)
   ("~:[f~;t~]", [VList []]);                                          (* the empty list object is not nil *)
   ("~:A", [VList []]);
   ("~@[x~A~]y", [VList []]);
